@@ -2,6 +2,7 @@ package c16
 
 import (
 	"context"
+	"errors"
 	"fmt"
 	"io"
 	"log/slog"
@@ -21,6 +22,10 @@ type Early struct {
 	Concurrent   int  `json:"concurrent"`    // Close calls racing with the start of Serve
 	ClosesAfter  int  `json:"closes_after"`
 	Dial         bool `json:"dial,omitempty"` // a client dials before Serve starts
+	// AcceptErr: Accept fails with an error that is not "listener closed" (descriptor exhaustion):
+	// 1 = before Serve is started, 2 = once the accept loop is parked. Serve may return it; Close
+	// must still return and release the listener.
+	AcceptErr int `json:"accept_err,omitempty"`
 }
 
 var quiet = slog.New(slog.NewTextHandler(io.Discard, &slog.HandlerOptions{Level: slog.Level(100)}))
@@ -35,6 +40,13 @@ func RunEarly(c Early) (res core.Result) {
 	l := memnet.NewListener(nil)
 	if c.Dial {
 		_, _ = l.Dial()
+	}
+	acceptErr := errors.New("accept memnet: too many open files")
+	if c.AcceptErr == 1 {
+		l.FailAccept(acceptErr)
+	}
+	if c.AcceptErr != 0 {
+		res.Labels = append(res.Labels, fmt.Sprintf("accept-error=%d", c.AcceptErr))
 	}
 	closeOnce := func() string {
 		out := make(chan string, 1)
@@ -79,8 +91,29 @@ func RunEarly(c Early) (res core.Result) {
 			return core.Fail("C16/early/close-racing-serve", "Close call %d racing with the start of Serve: %s", i, d)
 		}
 	}
-	if c.ClosesBefore+c.Concurrent == 0 {
+	if c.ClosesBefore+c.Concurrent == 0 && c.AcceptErr != 1 {
 		l.WaitAccepting(script.Guard)
+	}
+	var served bool
+	var serveErr error
+	if c.AcceptErr == 2 {
+		l.FailAccept(acceptErr)
+	}
+	if c.AcceptErr != 0 && c.ClosesBefore+c.Concurrent == 0 {
+		// the accept loop has seen the error: wait until Serve has dealt with it, so that the Close
+		// calls below meet a server whose Serve has already returned
+		// (returned) or has gone back to accepting (a server may treat the error as temporary)
+		deadline := time.Now().Add(script.Guard)
+		for !served && !l.Parked() {
+			select {
+			case serveErr = <-serveDone:
+				served = true
+			case <-time.After(200 * time.Microsecond):
+			}
+			if time.Now().After(deadline) {
+				return core.Fail("C16/early/serve-stuck-on-accept-error", "Serve neither returned nor went back to accepting after Accept failed with %q", acceptErr)
+			}
+		}
 	}
 	for i := 0; i < c.ClosesAfter; i++ {
 		if d := closeOnce(); d != "" {
@@ -88,11 +121,16 @@ func RunEarly(c Early) (res core.Result) {
 		}
 	}
 	if c.ClosesBefore+c.Concurrent+c.ClosesAfter == 0 {
-		_ = closeOnce()
+		if d := closeOnce(); d != "" {
+			return core.Fail("C16/early/close-after", "the only Close call: %s", d)
+		}
+	}
+	if served {
+		serveDone <- serveErr
 	}
 	select {
 	case err := <-serveDone:
-		if err != nil {
+		if err != nil && !(c.AcceptErr != 0 && errors.Is(err, acceptErr)) {
 			return core.Fail("C16/early/serve-error", "Serve returned %v, want nil", err)
 		}
 	case <-time.After(script.Guard):
